@@ -626,7 +626,7 @@ class AsyncFIXConnection:
                 await self._state_set(ConnectionState.ACTIVE)
             return
         journal_replay_msgs = self._journaler.recover_messages(
-            self._session, MessageDirection.OUTBOUND, begin_seq_no, end_seq_no
+            self._session, MessageDirection.OUTBOUND, begin_seq_no, sys.maxsize
         )
 
         # Remember next_num_out
@@ -648,6 +648,11 @@ class AsyncFIXConnection:
         for enc_msg in journal_replay_msgs:
             replay_msg, _, _ = self._codec.decode(enc_msg, silent=False)
             msg_seq_num = int(replay_msg[FTag.MsgSeqNum])
+            if msg_seq_num > end_seq_no:  # not requested: back into the journal, unsent
+                self._journaler.persist_msg(
+                    enc_msg, self._session, MessageDirection.OUTBOUND
+                )
+                continue
 
             is_sess_msg = replay_msg[FTag.MsgType] in noreply_msgs
             if is_sess_msg or not await self.should_replay(replay_msg):
@@ -687,11 +692,12 @@ class AsyncFIXConnection:
         assert gap_fill_end <= current_next_num_out, "Unexpected end for gap"
 
         # Remainder not available in some reason
-        if gap_fill_begin < current_next_num_out:
+        gap_fill_end = min(end_seq_no + 1, current_next_num_out)
+        if gap_fill_begin < gap_fill_end:
             gap_fill_msg = FIXMessage(FMsg.SEQUENCERESET)
             gap_fill_msg[FTag.GapFillFlag] = "Y"
             gap_fill_msg[FTag.MsgSeqNum] = gap_fill_begin
-            gap_fill_msg[FTag.NewSeqNo] = current_next_num_out
+            gap_fill_msg[FTag.NewSeqNo] = gap_fill_end
             await self.send_msg(gap_fill_msg)
 
         self._journaler.set_seq_num(self._session, next_num_out=current_next_num_out)
